@@ -400,15 +400,16 @@ fn build_condition(ep: Endpoint, b: &BuildD) -> Option<String> {
             if exp_hex(b.keyring.as_deref()) == Exp::NoSuchValue {
                 return Some("db-validation:non-hex-keyring-unreadable-as-HEX".into());
             }
-            text_condition(&b.version).map(|c| format!("explore:{c}-in-version"))
+            None
         }
         Endpoint::Cdns => {
             let p = b.cdn_path.as_deref()?;
             match text_condition(p) {
                 Some("linebreak") => Some("db-validation:linebreak-in-cdn_path-breaks-rows".into()),
                 Some("pipe") => Some("db-validation:pipe-in-cdn_path-shifts-columns".into()),
-                Some(c) => Some(format!("explore:{c}-in-cdn_path")),
-                None => None,
+                // the reader trims each line, and ConfigPath is the last column
+                _ if p.trim_end() != p => Some("db-validation:trailing-whitespace-of-cdn_path-lost-from-last-column".into()),
+                _ => None,
             }
         }
     }
@@ -444,19 +445,14 @@ pub fn judge_product_query(db: &DbDesc, recs: &[Rec<'_>], product: &str, ep: End
         });
     }
     if let Outcome::ClientPanic { file, msg } = out {
-        let cond = newest.iter().find_map(|r| build_condition(ep, r.b)).unwrap_or_else(|| "benign-data".into());
-        return Some(Finding {
-            key: format!("C15:client:panic:{file}:{}:{}:{}", vh_engine::util::normalise(msg), tr.name(), cond.replace("db-validation:", "").replace("explore:", "")),
-            msg: ctx,
-        });
+        return Some(Finding { key: format!("C15:client:panic:{file}:{}", vh_engine::util::normalise(msg)), msg: ctx });
     }
     let mut cands = newest.clone();
     if wrong_pick {
         cands.push(strpick);
     }
     if let Some(cond) = cands.iter().find_map(|r| build_condition(ep, r.b)) {
-        let key = if cond.starts_with("explore:") { format!("C15:{cond}:{}", tr.name()) } else { format!("C15:{cond}") };
-        return Some(Finding { key, msg: ctx });
+        return Some(Finding { key: format!("C15:{cond}"), msg: ctx });
     }
     let kind = match out {
         Outcome::Doc(_) => "rows-differ-from-newest-build",
@@ -501,11 +497,7 @@ pub fn judge_summary(db: &DbDesc, out: &Outcome) -> Option<Finding> {
     };
     let msg = format!("v1/summary: {why}; products {want:?}");
     if let Outcome::ClientPanic { file, msg: pm } = out {
-        let cond = want.iter().find_map(|p| text_condition(p)).unwrap_or("benign-data");
-        return Some(Finding {
-            key: format!("C15:client:panic:{file}:{}:summary:{cond}-in-product", vh_engine::util::normalise(pm)),
-            msg,
-        });
+        return Some(Finding { key: format!("C15:client:panic:{file}:{}", vh_engine::util::normalise(pm)), msg });
     }
     let cond = |f: &dyn Fn(&str) -> bool| want.iter().any(|p| f(p));
     let key = if cond(&|p| p.contains('\n')) {
@@ -516,8 +508,6 @@ pub fn judge_summary(db: &DbDesc, out: &Outcome) -> Option<Finding> {
         "C15:db-validation:product-starting-with-hash-read-as-comment-in-summary".to_string()
     } else if cond(&|p| p.trim_start() != p) {
         "C15:db-validation:leading-whitespace-of-product-lost-in-summary".to_string()
-    } else if let Some(c) = want.iter().find_map(|p| text_condition(p)) {
-        format!("C15:explore:{c}-in-product:summary")
     } else {
         match out {
             Outcome::Doc(_) => "C15:tcp-v1:summary:rows-differ-from-database".to_string(),
